@@ -22,7 +22,7 @@ RULE = ('malformation classes built by the independent encoder with valid CRCs: 
         'AAD content, unknown context id, missing target block, duplicate parameter ids, duplicate result ids, result/target '
         'count mismatch, result list length != 1, undecodable COSE (garbage, wrong message type, truncated), block data that is '
         'not an abstract security block, scope naming a missing block; BIB and BCB variants; two security '
-        'blocks of which one fails (either order); valid and absent security blocks as controls; x receiver key stores {all, '
+        'blocks of which one fails (either order); one block with two targets of which the first / the last / none fails; the genuine target content moved into the COSE payload slot with the target replaced; valid and absent security blocks as controls; x receiver key stores {all, '
         'wrong, none} x accept-after-verify on/off x deletion report requested or not. Non-trivial = a bundle carrying at least '
         'one security block; distinct = distinct (class, variant, key store, accept, report) tuple.')
 ASSUMPTIONS = [
@@ -37,7 +37,7 @@ SEC_REASONS = {12, 13, 14, 15, 16}
 CLASSES = ['valid', 'none', 'wrong-tag', 'unknown-kid', 'altered-target', 'altered-primary', 'unknown-context', 'missing-target',
            'dup-params', 'dup-results', 'count-mismatch', 'two-results', 'zero-results', 'garbage-cose', 'wrong-msg-type', 'truncated-cose',
            'not-an-asb', 'asb-bad-source', 'scope-missing-block', 'two-blocks-first-bad', 'two-blocks-second-bad',
-           'two-blocks-both-good']
+           'two-blocks-both-good', 'multi-target-first-bad', 'multi-target-last-bad', 'multi-target-good', 'attached-original-altered-target']
 
 
 def build(cls, variant, rng, report):
@@ -58,20 +58,23 @@ def build(cls, variant, rng, report):
 
     def add_block(kind, target, num, scope=None, key=None, kid=None, mutate=None):
         scope = scope or {0: 1, -1: 1}
+        targets = target if isinstance(target, list) else [target]
         sec = dict(type=11 if kind == 'bib' else 12, num=num, flags=0, crc_type=crc, data=b'', crc=None)
         bundle['blocks'].insert(0, sec)
         params = [(5, scope)]
-        asb = dict(targets=[target['num']], context_id=3, flags=1, source=sh.SRC_NODE, params=params, results=[])
-        try:
-            ext_aad = cb.external_aad(bundle, sec, target, scope, b'', source_item)
-        except cb.SecError:
-            ext_aad = b'no-aad'
-        if kind == 'bib':
-            result = cb.make_mac0_result(5, kid or b'mk', key or sh.MAC_KEY, ext_aad, target['data'])
-        else:
-            result, ciphertext = cb.make_enc0_result(3, kid or b'ek', key or sh.ENC_KEY, bytes(range(12)), ext_aad, target['data'])
-            target['data'] = ciphertext
-        asb['results'] = [[result]]
+        asb = dict(targets=[tgt['num'] for tgt in targets], context_id=3, flags=1, source=sh.SRC_NODE, params=params, results=[])
+        for tidx, tgt in enumerate(targets):
+            try:
+                ext_aad = cb.external_aad(bundle, sec, tgt, scope, b'', source_item)
+            except cb.SecError:
+                ext_aad = b'no-aad'
+            if kind == 'bib':
+                result = cb.make_mac0_result(5, kid or b'mk', key or sh.MAC_KEY, ext_aad, tgt['data'])
+            else:
+                result, ciphertext = cb.make_enc0_result(3, kid or b'ek', key or sh.ENC_KEY, bytes([tidx] * 12), ext_aad, tgt['data'])
+                tgt['data'] = ciphertext
+            asb['results'].append([result])
+        target = targets[0]
         if mutate:
             mutate(asb, sec, target)
         if asb is not None and sec['data'] == b'':
@@ -142,6 +145,24 @@ def build(cls, variant, rng, report):
         add_block(kind, pay, 2, scope={0: 1, -1: 1, 55: 1})
     elif cls == 'empty-targets':
         add_block(kind, pay, 2, mutate=lambda asb, sec, tgt: asb.update(targets=[], results=[]))
+    elif cls.startswith('multi-target'):
+        bad = {'multi-target-first-bad': 0, 'multi-target-last-bad': 1}.get(cls)
+        order = rng.choice([[extra, pay], [pay, extra]])
+
+        def mut(asb, sec, tgt):
+            if bad is not None:
+                victim = order[bad]
+                victim['data'] = (bytes([victim['data'][0] ^ 0x40]) + victim['data'][1:]) if victim['data'] else b'\x01'
+        add_block(kind, order, 2, mutate=mut)
+    elif cls == 'attached-original-altered-target':
+        # on-path edit without the key: the genuine target content is moved into the COSE payload slot and the target is replaced
+        def mut(asb, sec, tgt):
+            (rid, rval) = asb['results'][0][0]
+            msg = cw.parse_all(rval).to_python()
+            msg[2] = bytes(tgt['data'])
+            asb['results'][0][0] = (rid, cw.enc(msg))
+            tgt['data'] = bytes(tgt['data'][:-1]) + bytes([(tgt['data'][-1] if tgt['data'] else 0) ^ 0x55]) if tgt['data'] else b'forged'
+        add_block(kind, pay, 2, mutate=mut)
     elif cls.startswith('two-blocks'):
         first_bad = cls == 'two-blocks-first-bad'
         second_bad = cls == 'two-blocks-second-bad'
